@@ -9,9 +9,8 @@ ENTRIES = ['_ZNK6engine8Position15move_is_captureEj', '_ZNK6engine8Position13mov
 SLIDERS = ['_ZN6engine13slider_attackILNS_9PieceKindE3EEEmNS_6SquareEm', '_ZN6engine13slider_attackILNS_9PieceKindE4EEEmNS_6SquareEm', '_ZN6engine13slider_attackILNS_9PieceKindE5EEEmNS_6SquareEm']
 
 def mats(tier):
-    q = material.M(3) + [material.parse(x) for x in ('KRBk', 'KPkp', 'KRkp', 'KBkn')]
-    if tier == 'quick': return q
-    return material.M(3) + material.M(4)
+    if tier == 'quick': return [material.parse(x) for x in ('KPk', 'Kkp', 'KRk', 'Kkr', 'KBk', 'KNk', 'KQk')]
+    return material.M(3) + [material.parse(x) for x in ('KRBk', 'KPkp', 'KRkp', 'KBkn', 'KRRk', 'KQkp', 'KPkr', 'KNkb', 'KRkb', 'KBPk', 'KNPk', 'KPPk', 'KQkq')]
 
 def check(ctx):
     m = ctx.module(TUS)
